@@ -41,6 +41,9 @@ structure Cfg where
   /-- fail_timeout > 0: failures are counted -/
   countFails : Bool
   unhealthy : List Bool
+  /-- try_duration > 0 (and not yet over): after a failed attempt, or when no backend is available,
+  the request goes back to selecting instead of ending (only read by the schedule replay) -/
+  retry : Bool := false
 deriving Repr, DecidableEq
 
 structure State where
@@ -135,7 +138,7 @@ A replay event `adv t x` lets thread `t` run up to its next blocking point; `x` 
 backend (when it selects) or the outcome code (when its round trip ends).  The granularity is
 coarser than `step`: the end of a failed round trip includes `countFail` (and, with a short
 fail_timeout, the expiry of that failure), because the real code offers no blocking point there.
-Retries are off (try_duration 0). -/
+With `c.retry` a failed request goes back to selecting (try_duration not yet over). -/
 
 inductive Label where
   | sel (h : Nat)
@@ -182,7 +185,7 @@ def advance (c : Cfg) (ex : Expiry) (s : State) (t x : Nat) : State × Label :=
   | some .idle =>
     match chooseHost c s x with
     | some h => (stepD c s (.select t (some h) false), .sel h)
-    | none => (stepD c s (.select t none false), .none)
+    | none => (stepD c s (.select t none c.retry), .none)
   | some (.selected h) =>
     let s' := stepD c s (.reserve t)
     if s'.pcs[t]? == some (.forwarding h) then (s', .fwd h)
@@ -191,11 +194,11 @@ def advance (c : Cfg) (ex : Expiry) (s : State) (t x : Nat) : State × Label :=
       -- call returns nil before any policy is consulted and the request ends (retries are off)
       match firstAvail c s' with
       | some _ => (s', .lost h)
-      | none => (stepD c s' (.select t none false), .lost h)
+      | none => (stepD c s' (.select t none c.retry), .lost h)
   | some (.forwarding h) =>
     let o := decodeOutcome x
     let s1 := stepD c s (.finish t o)
-    let s2 := if o == .err then stepD c s1 (.countFail t false) else s1
+    let s2 := if o == .err then stepD c s1 (.countFail t c.retry) else s1
     let s3 := if o == .err && ex == .immediate then stepD c s2 (.timer h) else s2
     (s3, .fin h o)
   | _ => (s, .noop)
